@@ -14,7 +14,7 @@ from vk.symx.poly import Poly
 SHIMS = [
     "renormalizer.mps.matrix.Matrix.__init__/astype/to_complex: dtype coercion skipped for dtype=object arrays",
     "matrix.zeros/ones (as imported into mp/mps/mpo/lib) return dtype=object arrays of exact 0/1",
-    "the name np inside renormalizer.mps.mps / mp is a proxy: isclose/allclose/iscomplex are exact on symbolic values, everything else is numpy",
+    "the names np and xp (= numpy without a GPU) inside renormalizer.mps.mps / mp are a proxy: isclose/allclose/iscomplex are exact on symbolic values, everything else is numpy",
     "module-level names complex/float in renormalizer.mps.mp, mps, mpo, lib shadowed by identity-on-symbolic versions",
 ]
 
@@ -109,6 +109,9 @@ def symbolic_mode():
     saved_np = [(m, m.__dict__.get("np")) for m in (mps_mod, mp_mod)]
     for m, _ in saved_np:
         m.np = proxy
+    saved_xp = [(m, m.__dict__["xp"]) for m in (mps_mod, mp_mod) if m.__dict__.get("xp") is np]      # xp is numpy without a GPU: same exact comparisons
+    for m, _ in saved_xp:
+        m.xp = proxy
 
     mods = [mp_mod, mps_mod, mpo_mod, lib_mod, mpdm_mod]
     saved = [(m, m.__dict__.get("complex", None), m.__dict__.get("float", None)) for m in mods]
@@ -125,6 +128,8 @@ def symbolic_mode():
         M.Matrix.__init__, M.Matrix.astype, M.Matrix.to_complex = orig_init, orig_astype, orig_tc
         for m, val in saved_np:
             m.np = val
+        for m, val in saved_xp:
+            m.xp = val
         for m, name, val in saved_fn:
             setattr(m, name, val)
         for m, c, f in saved:
